@@ -1820,3 +1820,202 @@ Qed.
 Theorem init_state_QA : QA (init_state n).
 Proof. split; [apply (init_state_InvC n HN)|intros _; apply init_state_PA]. Qed.
 End InvA2.
+
+(* ======================================================================== *)
+(* Part 7 : (B) recipe consistency: every cached recipe of a node with children equals the recipe
+   derived from the index orders cached on the node and on its two children (which are cached) *)
+Definition entB (s : tstate) (nd : node) (i : ninfo) : Prop :=
+  forall l r, nget nd (children s) = Some (l, r) ->
+   (forall a, i_tdaxes i = Some a -> exists li ri, rd i_inds s l = Some li /\ rd i_inds s r = Some ri /\ a = td_axes li ri 0) /\
+   (forall e, i_eq i = Some e -> exists li ri pi, rd i_inds s l = Some li /\ rd i_inds s r = Some ri /\ i_inds i = Some pi /\
+                                 e = einsum_eq_of li ri pi) /\
+   (forall p, i_tdperm i = Some p -> exists li ri pi, rd i_inds s l = Some li /\ rd i_inds s r = Some ri /\ i_inds i = Some pi /\
+                                 p = td_perm li ri pi) /\
+   (forall b, i_can_dot i = Some b -> exists sp sl sr, i_legs i = Some sp /\ rd i_legs s l = Some sl /\ rd i_legs s r = Some sr /\
+                                 b = set_eqb (lkeys sp) (symdiff (lkeys sl) (lkeys sr))).
+Definition PB (s : tstate) : Prop := forall nd i, nget nd (info s) = Some i -> entB s nd i.
+Definition PBe (s : tstate) : Prop := err s = false -> PB s.
+Definition norec (i : ninfo) : Prop := i_eq i = None /\ i_can_dot i = None /\ i_tdaxes i = None /\ i_tdperm i = None.
+
+Lemma entB_norec s nd i : norec i -> entB s nd i.
+Proof. intros (A&B&C&D) l r _. rewrite A, B, C, D. repeat split; intros; discriminate. Qed.
+Lemma entB_ext s s' nd i : children s' = children s -> (forall q, rd i_inds s' q = rd i_inds s q) ->
+  (forall q, rd i_legs s' q = rd i_legs s q) -> entB s nd i -> entB s' nd i.
+Proof.
+  intros Ec Ei El H l r Hch. rewrite Ec in Hch. destruct (H l r Hch) as (A&B&C&D). rewrite !Ei, !El. auto.
+Qed.
+Lemma PB_upd_field nd f s : PB s -> (forall i, i_inds (f i) = i_inds i /\ i_legs (f i) = i_legs i) ->
+  (forall i, nget nd (info s) = Some i -> entB s nd i -> entB s nd (f i)) -> PB (upd_info nd f s).
+Proof.
+  intros HP Hf Hn.
+  assert (Hrd : forall A (fld : ninfo -> option A), (forall i, fld (f i) = fld i) -> forall q, rd fld (upd_info nd f s) q = rd fld s q).
+  { intros A fld Hfld q. destruct (node_eq_dec q nd) as [->|Hq]; [|apply rd_upd_other, Hq].
+    destruct (nget nd (info s)) as [i|] eqn:E.
+    - rewrite (rd_upd_same fld nd f s i E). unfold rd. rewrite E. apply Hfld.
+    - unfold upd_info. rewrite E. reflexivity. }
+  intros q i' Hi'. apply (entB_ext s); [apply upd_info_fields|apply Hrd; intros i; apply Hf|apply Hrd; intros i; apply Hf|].
+  destruct (node_eq_dec q nd) as [->|Hq].
+  - rewrite nget_upd_same in Hi'. destruct (nget nd (info s)) as [i|] eqn:E; [|discriminate]. injection Hi' as <-.
+    apply Hn; [reflexivity|apply HP, E].
+  - rewrite nget_upd_other in Hi' by exact Hq. apply HP, Hi'.
+Qed.
+
+(* established by _reset_contraction_recipes / reset_contraction_indices, in ANY state *)
+Lemma fold_drop_norec f (L : list (node * (node * node))) nd : (forall i, norec (f i)) ->
+  forall s, (In nd (map fst L) \/ (forall i, nget nd (info s) = Some i -> norec i)) ->
+  forall i', nget nd (info (fold_left (fun s p => upd_info (fst p) f s) L s)) = Some i' -> norec i'.
+Proof.
+  intros Hf. induction L as [|p L IH]; intros s H i' Hi'; cbn [fold_left] in Hi'.
+  - destruct H as [[]|H]. apply H, Hi'.
+  - apply (IH (upd_info (fst p) f s)); [|exact Hi'].
+    destruct (node_eq_dec (fst p) nd) as [E|E].
+    + right. intros i Hi. rewrite E, nget_upd_same in Hi. destruct (nget nd (info s)); [|discriminate]. injection Hi as <-. apply Hf.
+    + destruct H as [[H|H]|H]; [contradiction|left; exact H|right].
+      intros i Hi. rewrite nget_upd_other in Hi by congruence. apply H, Hi.
+Qed.
+Lemma PB_over_children f s : (forall i, norec (f i)) -> PB (over_children f s).
+Proof.
+  intros Hf nd i' Hi' l r Hch. destruct (over_children_fields f s) as (Ec&_). rewrite Ec in Hch.
+  apply (entB_norec _ nd i'); [|rewrite Ec; exact Hch].
+  unfold over_children in Hi'. apply (fold_drop_norec f (children s) nd Hf s); [|exact Hi'].
+  left. apply nget_In in Hch. apply (in_map fst) in Hch. exact Hch.
+Qed.
+Theorem PB_reset_recipes s : PB (reset_recipes s).
+Proof.
+  unfold reset_recipes. intros nd i Hi. apply (entB_ext (over_children drop_recipes s)); try reflexivity.
+  apply (PB_over_children drop_recipes s); [intros i0; unfold norec; cbn; auto|exact Hi].
+Qed.
+Theorem PB_reset_inds s : PB (reset_inds s).
+Proof.
+  unfold reset_inds. intros nd i Hi. apply (entB_ext (over_children drop_inds_recipes s)); try reflexivity.
+  apply (PB_over_children drop_inds_recipes s); [intros i0; unfold norec; cbn; auto|exact Hi].
+Qed.
+
+Section InvB.
+Variable n : net.
+Notation N := (NN n).
+Hypothesis HN : 2 <= N.
+Hypothesis Hout : NoDup (output n).
+
+(* the composites that end with _reset_contraction_recipes *)
+Theorem PBe_remove_ind ind pj s : PBe (remove_ind n ind pj s).
+Proof. unfold remove_ind. destruct (memb ind (removed (sliced s))); [intros H; discriminate|]. intros _. apply PB_reset_recipes. Qed.
+Theorem PBe_restore_ind ind s : PBe (restore_ind n ind s).
+Proof.
+  unfold restore_ind. destruct (find _ (sliced s)); [|intros H; discriminate].
+  match goal with |- context [traverse n ?x] => destruct (traverse n x) end; [|intros H; discriminate].
+  intros _. apply PB_reset_recipes.
+Qed.
+Theorem PBe_sort_inds pr a b c s : PBe (sort_inds n pr a b c s).
+Proof.
+  unfold sort_inds.
+  match goal with |- context [let '(s1, nodes) := ?e in _] => destruct e as [s1 [nodes|]] end; [|intros H; discriminate].
+  intros _. apply PB_reset_recipes.
+Qed.
+
+(* preserved by every frame that keeps recipes and never replaces a cached order / legs dict *)
+Lemma PB_irl s s' : PB s -> irl n s s' -> PB s'.
+Proof.
+  intros HP HR nd i' Hi' l r Hch. assert (HR' := HR). destruct HR' as (A1&Ec&_).
+  destruct (irel_nget_rev _ _ _ A1 nd i' Hi') as (i & Hi & (E1&E2&E3&E4) & Em & Hs). rewrite Ec in Hch.
+  destruct (HP nd i Hi l r Hch) as (B1&B2&B3&B4). rewrite E1, E2, E3, E4. split; [|split; [|split]].
+  - intros a Ha. destruct (B1 a Ha) as (li & ri & Hl & Hr & ->). exists li, ri.
+    split; [apply (irl_inds n s s' l li HR Hl)|]. split; [apply (irl_inds n s s' r ri HR Hr)|reflexivity].
+  - intros e He. destruct (B2 e He) as (li & ri & pi & Hl & Hr & Hp & ->). exists li, ri, pi.
+    split; [apply (irl_inds n s s' l li HR Hl)|]. split; [apply (irl_inds n s s' r ri HR Hr)|]. split; [apply Em, Hp|reflexivity].
+  - intros p Hp'. destruct (B3 p Hp') as (li & ri & pi & Hl & Hr & Hp & ->). exists li, ri, pi.
+    split; [apply (irl_inds n s s' l li HR Hl)|]. split; [apply (irl_inds n s s' r ri HR Hr)|]. split; [apply Em, Hp|reflexivity].
+  - intros b Hb. destruct (B4 b Hb) as (sp & sl & sr & Hp & Hl & Hr & ->). exists sp, sl, sr.
+    split; [unfold legs_step in Hs; rewrite Hp in Hs; exact Hs|].
+    split; [apply (irl_legs n s s' l sl HR Hl)|]. split; [apply (irl_legs n s s' r sr HR Hr)|reflexivity].
+Qed.
+Lemma PBe_irl s s' : PBe s -> irl n s s' -> PBe s'.
+Proof. intros HP HR He. apply (PB_irl s s'); [apply HP, (irl_err n _ _ HR He)|exact HR]. Qed.
+Lemma PBe_crel s s' : PBe s -> crel n s s' -> PBe s'.
+Proof. intros HP HR. apply (PBe_irl s s' HP), crel_irl, HR. Qed.
+Lemma g_legs_cached_e s nd : err (fst (g_legs n s nd)) = false -> rd i_legs (fst (g_legs n s nd)) nd = Some (snd (g_legs n s nd)).
+Proof.
+  unfold g_legs. destruct (fuel_S n HN s) as [f ->]. rewrite get_legs_S.
+  destruct (rd i_legs s nd) as [l|] eqn:Er; [intros _; exact Er|].
+  match goal with |- context [let '(s1, v) := ?e in _] => destruct e as [s1 v] end. cbn [fst snd].
+  intros He. destruct (upd_err _ _ _ He) as [_ Hk]. destruct (nget nd (info s1)) as [i1|] eqn:E; [|congruence].
+  rewrite (rd_upd_same i_legs nd _ s1 i1 E). reflexivity.
+Qed.
+Lemma PBe_err s : PBe (set_err s).
+Proof. intros H. discriminate. Qed.
+
+Lemma g_can_dot_B s nd : InvC n s -> PBe s -> PBe (fst (g_can_dot n s nd)).
+Proof.
+  intros HI HP. unfold g_can_dot. destruct (rd i_can_dot s nd) as [b|] eqn:Er; [exact HP|].
+  destruct (nget nd (children s)) as [[l r]|] eqn:E; [|apply PBe_err].
+  pose proof (InvC_chok n s HI) as Hc.
+  pose proof (g_legs_crel n HN s nd Hc) as H1. pose proof (g_legs_cached_e s nd) as C1. destruct (g_legs n s nd) as [s1 sp]. cbn [fst snd] in H1, C1.
+  pose proof (g_legs_crel n HN s1 l (crel_chok n _ _ H1 Hc)) as H2. pose proof (g_legs_cached_e s1 l) as C2.
+  destruct (g_legs n s1 l) as [s2 sl]. cbn [fst snd] in H2, C2.
+  pose proof (crel_trans n _ _ _ H1 H2) as H12.
+  pose proof (g_legs_crel n HN s2 r (crel_chok n _ _ H12 Hc)) as H3. pose proof (g_legs_cached_e s2 r) as C3.
+  destruct (g_legs n s2 r) as [s3 sr]. cbn [fst snd] in H3, C3.
+  pose proof (crel_trans n _ _ _ H12 H3) as H13. cbn [fst].
+  intros He. destruct (upd_err _ _ _ He) as [He3 _].
+  pose proof (crel_err n _ _ H3 He3) as He2. pose proof (crel_err n _ _ H2 He2) as He1.
+  apply PB_upd_field; [apply (PBe_crel s s3 HP H13), He3|intros i; cbn; auto|].
+  intros i Hi HB l' r' Hch. destruct (HB l' r' Hch) as (B1&B2&B3&B4). cbn. split; [exact B1|]. split; [exact B2|]. split; [exact B3|].
+  intros b [= <-]. assert (Ech3 : children s3 = children s) by apply H13. rewrite Ech3, E in Hch. injection Hch as <- <-.
+  exists sp, sl, sr. split.
+  - pose proof (irl_legs n s1 s3 nd sp (crel_irl n _ _ (crel_trans n _ _ _ H2 H3)) (C1 He1)) as H. unfold rd in H. rewrite Hi in H. exact H.
+  - split; [apply (irl_legs n s2 s3 l sl (crel_irl n _ _ H3) (C2 He2))|]. split; [apply C3, He3|reflexivity].
+Qed.
+Lemma g_tdaxes_B s nd : InvC n s -> PAe n s -> PBe s -> good_node n nd -> PBe (fst (g_tdaxes n s nd)).
+Proof.
+  intros HI HA HP HG. unfold g_tdaxes. destruct (rd i_tdaxes s nd) as [b|] eqn:Er; [exact HP|].
+  destruct (nget nd (children s)) as [[l r]|] eqn:E; [|apply PBe_err].
+  pose proof (inds3_A n HN Hout s nd l r HI HA HG E) as H.
+  destruct (g_inds n s l) as [s1 li]. destruct (g_inds n s1 r) as [s2 ri]. destruct (g_inds n s2 nd) as [s3 pi].
+  destruct H as (I2&P2&R2&C2&_). cbn [fst].
+  intros He. destruct (upd_err _ _ _ He) as [He2 _]. destruct (C2 He2) as [Cl Cr].
+  apply PB_upd_field; [apply (PBe_irl s s2 HP R2), He2|intros i; cbn; auto|].
+  intros i Hi HB l' r' Hch. destruct (HB l' r' Hch) as (B1&B2&B3&B4). cbn. split; [|auto].
+  intros a [= <-]. assert (Ech : children s2 = children s) by apply R2. rewrite Ech, E in Hch. injection Hch as <- <-.
+  exists li, ri. auto.
+Qed.
+Lemma g_tdperm_B s nd : InvC n s -> PAe n s -> PBe s -> good_node n nd -> PBe (fst (g_tdperm n s nd)).
+Proof.
+  intros HI HA HP HG. unfold g_tdperm. destruct (rd i_tdperm s nd) as [b|] eqn:Er; [exact HP|].
+  destruct (nget nd (children s)) as [[l r]|] eqn:E; [|apply PBe_err].
+  pose proof (inds3_A n HN Hout s nd l r HI HA HG E) as H.
+  destruct (g_inds n s l) as [s1 li]. destruct (g_inds n s1 r) as [s2 ri]. destruct (g_inds n s2 nd) as [s3 pi].
+  destruct H as (_&_&_&_&I3&P3&R3&C3). cbn [fst].
+  intros He. destruct (upd_err _ _ _ He) as [He3 _]. destruct (C3 He3) as (Cl & Cr & Cp).
+  apply PB_upd_field; [apply (PBe_irl s s3 HP R3), He3|intros i; cbn; auto|].
+  intros i Hi HB l' r' Hch. destruct (HB l' r' Hch) as (B1&B2&B3&B4). cbn. split; [exact B1|]. split; [exact B2|]. split; [|exact B4].
+  intros a [= <-]. assert (Ech : children s3 = children s) by apply R3. rewrite Ech, E in Hch. injection Hch as <- <-.
+  exists li, ri, pi. unfold rd in Cp. rewrite Hi in Cp. auto.
+Qed.
+Lemma g_eq_B s nd : InvC n s -> PAe n s -> PBe s -> good_node n nd -> PBe (fst (g_eq n s nd)).
+Proof.
+  intros HI HA HP HG. unfold g_eq. destruct (rd i_eq s nd) as [b|] eqn:Er; [exact HP|].
+  destruct (nget nd (children s)) as [[l r]|] eqn:E; [|apply PBe_err].
+  pose proof (inds3_A n HN Hout s nd l r HI HA HG E) as H.
+  destruct (g_inds n s l) as [s1 li]. destruct (g_inds n s1 r) as [s2 ri]. destruct (g_inds n s2 nd) as [s3 pi].
+  destruct H as (_&_&_&_&I3&P3&R3&C3). cbn [fst].
+  intros He. destruct (upd_err _ _ _ He) as [He3 _]. destruct (C3 He3) as (Cl & Cr & Cp).
+  apply PB_upd_field; [apply (PBe_irl s s3 HP R3), He3|intros i; cbn; auto|].
+  intros i Hi HB l' r' Hch. destruct (HB l' r' Hch) as (B1&B2&B3&B4). cbn. split; [exact B1|]. split; [|split; [exact B3|exact B4]].
+  intros a [= <-]. assert (Ech : children s3 = children s) by apply R3. rewrite Ech, E in Hch. injection Hch as <- <-.
+  exists li, ri, pi. unfold rd in Cp. rewrite Hi in Cp. auto.
+Qed.
+(* every getter preserves (B) *)
+Theorem getter_preserves_PBe g nd s : InvC n s -> PAe n s -> PBe s -> good_node n nd -> PBe (do_get n g nd s).
+Proof.
+  intros HI HA HP HG. pose proof (InvC_chok n s HI) as Hc. destruct g; cbn [do_get].
+  - apply (PBe_crel s); [exact HP|apply g_legs_crel; assumption].
+  - apply (PBe_crel s); [exact HP|apply g_involved_crel; assumption].
+  - apply (PBe_crel s); [exact HP|apply g_size_crel; assumption].
+  - apply (PBe_crel s); [exact HP|apply g_flops_crel; assumption].
+  - apply g_can_dot_B; assumption.
+  - apply (PBe_irl s); [exact HP|]. apply (g_inds_A n HN Hout s nd HI HA HG).
+  - apply g_tdaxes_B; assumption.
+  - apply g_tdperm_B; assumption.
+  - apply g_eq_B; assumption.
+Qed.
+End InvB.
